@@ -180,6 +180,11 @@ def hashBucket (H : Bytes → Bytes) (recs : List Record) : Except Panic Bytes :
   | [] => .error .emptyBucket                       -- `i.lines[0]`: index out of range
   | r0 :: rs =>
     if r0.m.name ≠ ⟨[], 0⟩ then .error .missingRoot
-    else scan H rs r0.name (visit H r0 ⟨[], [], []⟩)
+    else
+      match scan H rs r0.name (visit H r0 ⟨[], [], []⟩) with
+      | .error p => .error p
+      | .ok h =>
+        -- `visitCount != bucket.Length()`: every line was visited, but the map may hold fewer records
+        if rs.length + 1 ≠ distinctCount (recs.map (·.name)) then .error .countMismatch else .ok h
 
 end Rio
